@@ -123,10 +123,11 @@ class Code:
     registered name or the raw integer.  isname: Bool, name: String, raw: Int.
     Python equality Code == 'X' is (isname and name=='X'); Code == 5 is
     (not isname and raw==5) exactly as str/int comparison behaves in CPython."""
-    __slots__ = ('isname', 'name', 'raw')
+    __slots__ = ('isname', 'name', 'raw', 'cands')
 
     def __init__(self, isname, name, raw):
         self.isname, self.name, self.raw = isname, name, raw
+        self.cands = None
 
     def eq(self, other):
         if isinstance(other, Code):
